@@ -1,8 +1,10 @@
 /-
   Driver glue for the source-text front end (task C02FE). Commands:
 
-    src  <fuel> <hex source bytes>                 the text through Lex → Parse → Elab → (safety check) → `runProgram`;
+    src  <fuel> <hex source bytes>                 the text through Lex → Parse → Elab → `Stepwise.runBatch` (compile pass:
+                                                   expression acceptance + constraint flags, then `runProgram`);
                                                    SAME answer format as `prog`:  model=<outcome> out=<hex> vars=<n:v;…>
+    srcstep <fuel> <hex source bytes>              the same text one statement at a time (`Stepwise.runStepwise`)
     srcs <fuel> <hex text 1> <hex text 2>          two texts one after the other in the same context (as `progs`)
     safety <hex source bytes>                      only the `$` / iterator constraint checker of Model/Typing.lean on the
                                                    elaborated program: model=ok | model=perr <code>
@@ -17,6 +19,7 @@ import BlocV.Proto
 import BlocV.Model.Elab
 import BlocV.Model.Typing
 import BlocV.Model.Safety
+import BlocV.Model.Stepwise
 
 namespace BlocV.DrvFE
 open BlocV BlocV.Proto BlocV.Parse BlocV.Elab
@@ -50,12 +53,32 @@ def load (hex : String) : Except String (List Stmt) :=
     | some code => .error ("model=perr " ++ toString code ++ " out= vars=")
     | none => .ok prog
 
+/-- text → program without any verdict of the compile pass (that is `Stepwise.runBatch` / `runStepwise`'s business) -/
+def loadRaw (hex : String) : Except String (List Stmt) :=
+  match frontEnd (bytesOfHex hex) with
+  | .error c => .error (perrAnswer c)
+  | .ok (.error (.unsupported w)) => .error ("model=unsupported out= vars= note=" ++ noBlank w)
+  | .ok (.ok prog) => .ok prog
+
+def showResult (r : Stepwise.Result) : String :=
+  if (match r.outcome with | .perr c => c == Stepwise.eRuntimeConstraint | _ => false) then
+    "model=unsupported out= vars= note=run-time_constraint_check_(storeVariable)" else
+  let o := match r.outcome with
+    | .perr c => "perr " ++ toString c
+    | .ran x => showOutcome x
+  "model=" ++ o ++ " out=" ++ hexOfBytes r.st.output ++ " vars=" ++ showVars r.st.vars
+
+/-- `src`: the text as ONE unit (`Parser::parse` + `Executable::run`) -/
 def handleSrc (fuel hex : String) : String :=
-  match load hex with
+  match loadRaw hex with
   | .error a => a
-  | .ok prog =>
-    let r := runProgram (fuel.toNat?.getD 100000) prog
-    "model=" ++ showOutcome r.outcome ++ " out=" ++ hexOfBytes r.st.output ++ " vars=" ++ showVars r.st.vars
+  | .ok prog => showResult (Stepwise.runBatch (fuel.toNat?.getD 100000) prog)
+
+/-- `srcstep`: the text one statement at a time (`parseStatement` + run, repeated) -/
+def handleSrcStep (fuel hex : String) : String :=
+  match loadRaw hex with
+  | .error a => a
+  | .ok prog => showResult (Stepwise.runStepwise (fuel.toNat?.getD 100000) prog)
 
 def handleSrcs (fuel hex1 hex2 : String) : String :=
   match load hex1, load hex2 with
@@ -103,6 +126,8 @@ def handle (words : List String) : Option String :=
   | ["store", sym, safety, cur, new] => some (handleStore sym safety cur new)
   | ["src", fuel, hex] => some (handleSrc fuel hex)
   | ["src", fuel] => some (handleSrc fuel "")
+  | ["srcstep", fuel, hex] => some (handleSrcStep fuel hex)
+  | ["srcstep", fuel] => some (handleSrcStep fuel "")
   | ["srcs", fuel, h1, h2] => some (handleSrcs fuel h1 h2)
   | ["safety", hex] => some (handleSafety hex)
   | _ => none
